@@ -24,6 +24,8 @@ type c01PodCtl struct {
 	dests         []string        // groups a pod may be sent to (existing non-parent groups, default, system)
 	staleMigrate  []string        // out/in groups of migrations that used a stale cached pod object
 	reserved      bool            // a reserve took effect
+	track         bool            // record where the pod was after each operation (concurrent unit)
+	seen          []c01PodAt
 }
 
 func c01PickDest(r *kit.Rand, dests []string, not string) string {
@@ -46,6 +48,14 @@ func (p *c01Pod) drop() {
 // podOp issues one pod-related call for pod p. It only touches p and the manager, so that the
 // concurrent unit can run it from the goroutine owning p. Returns the kind of operation.
 func (e *c01Env) podOp(r *kit.Rand, p *c01Pod, ctl *c01PodCtl) string {
+	kind := e.podOp1(r, p, ctl)
+	if ctl.track && p.inMgr {
+		ctl.seen = append(ctl.seen, c01PodAt{slot: p.slot, group: p.group, req: p.req})
+	}
+	return kind
+}
+
+func (e *c01Env) podOp1(r *kit.Rand, p *c01Pod, ctl *c01PodCtl) string {
 	c, gqm := e.c, e.gqm
 	p.touched = true
 	if p.cur == nil {
@@ -265,9 +275,18 @@ type c01QuotaRules struct {
 }
 
 func (e *c01Env) detachFacts(rules *c01QuotaRules, name string) *c01Detach {
-	d := &c01Detach{x: name, ancestors: map[string]bool{}, limited: rules.limited(name)}
+	d := &c01Detach{x: name, ancestors: map[string]bool{}, limited: rules.limited(name), subtree: map[string]bool{}}
 	for _, a := range e.m.ancestors(name) {
 		d.ancestors[a] = true
+	}
+	d.maxAtOp = e.m.groups[name].max
+	for n, g := range e.m.groups {
+		if e.m.inSubtree(n, name) {
+			d.subtree[n] = true
+			if !g.lent && g.minSet {
+				d.minSum = d.minSum.add(g.min)
+			}
+		}
 	}
 	if d.limited {
 		e.c.Count("detach_of_max_limited_group", 1)
